@@ -13,6 +13,10 @@
  *   --mode exc  : like hist, but B is a ONE-frame excursion: A x3 frames, B x1 (--excb) frame, back to A x3 (--excc) frames - a transient
  *                 in the caller's settings (a pinched buffer, one frame at another rate / duration / mode) leaves encoder and decoders in
  *                 states that no monotone history reaches (e.g. the encoder remembers a mode the decoders never saw)
+ *   --mode tri  : three-segment histories A x3 -> B x2 -> C x3 over ALL ordered triples (B != A, C != B; C == A allowed) of <=1-deviation
+ *                 vectors from the decision-relevant sub-alphabet T (bitrate, bandwidth, max-bandwidth, channels, mode, duration, buffer, VBR,
+ *                 signal hint, ...): encoder and decoders are snapshotted after A and again after A->B, so a mode / bandwidth / channel
+ *                 decision that depends on TWO earlier settings (hysteresis, pending transitions, redundancy) is met from every such pair
  *   --mode hist : every base x every ordered pair (A,B) of <=1-deviation vectors: A for 3 frames, then the settings are
  *                 changed to B (A's dimension back to its default, B's deviation set; with --stack 1 also B on top of A)
  *                 for 4 frames.  The state after the A prefix (encoder + all decoders) is snapshotted by memcpy of
@@ -443,6 +447,67 @@ static void hist_item(long it,void *ctx){
    }
 }
 
+/* tri: A x3 -> B x2 -> C x3 over all ordered triples from the sub-alphabet T (indices into SG; NS = defaults) */
+static int TR[64], NTR;
+static int tr_member(const single *s,int full){
+   switch(s->dim){
+   case D_BITRATE: return s->val==6000||s->val==64000||(full&&(s->val==12000||s->val==24000||s->val==OPUS_BITRATE_MAX));
+   case D_VBR: return 1;
+   case D_CX: return full&&s->val==0;
+   case D_BW: return s->val==OPUS_BANDWIDTH_NARROWBAND||(full&&(s->val==OPUS_BANDWIDTH_MEDIUMBAND||s->val==OPUS_BANDWIDTH_SUPERWIDEBAND||s->val==OPUS_BANDWIDTH_FULLBAND));
+   case D_MAXBW: return full&&(s->val==OPUS_BANDWIDTH_NARROWBAND||s->val==OPUS_BANDWIDTH_WIDEBAND);
+   case D_FCH: return s->val==1||full;
+   case D_MODE: return 1;
+   case D_FEC: return full&&s->val==1;
+   case D_DTX: return full;
+   case D_SIGNAL: return full;
+   case D_DUR: return s->val==0||s->val==2||s->val==5||(full&&(s->val==1||s->val==4||s->val==8));
+   case D_MDB: return s->val==20||(full&&(s->val==7||s->val==60));
+   default: return 0; }
+}
+static void tri_item(long it,void *ctx){
+   int base=(int)(it/NTR), ai=(int)(it%NTR), a=TR[ai], bi, ci, dflt[NDIM], va[NDIM]; (void)ctx;
+   static void *snap_e[2]; static void *snap_d[2][14];
+   load_signals(FS[base/6],1+(base/3)%2);
+   vec_default(dflt); vec_default(va); if(a<NS) va[SG[a].dim]=SG[a].val;
+   worker_alloc();
+   if (!snap_e[0]){ int i,j; for(j=0;j<2;j++){ snap_e[j]=malloc(w_encsz[1]); for(i=0;i<14;i++) snap_d[j][i]=malloc(w_decsz[0][1]>w_decsz[1][1]?w_decsz[0][1]:w_decsz[1][1]); } }
+   {
+      encobj e; decobj D[14]; int nd,f,i,k=(base+ai)%NFAMS,fam=FAMS[k],entry,bad=0; long pos=0,pos0,pos1, rc=(long)a*NFAMS+k+base;   /* one family per (base, A), rotating */
+      entry = fam>=SIG_NFAM ? 2 : (int)((a+k)%3);
+      mc_case("encode_or_decode","tri base=%d Fs=%d ch=%d app=%s A=[%s] signal=%s entry=%s (prefix)",base,FS[base/6],1+(base/3)%2,APPN[base%3],vec_str(va),famname(fam),ENTN[entry]);
+      enc_fresh(&e,base);
+      if (apply_diff(&e,dflt,va)){ MC_INC(c_skipcfg); return; }
+      nd=dec_set(D,rc,base);
+      MC_INC(c_runs);
+      for(f=0;f<3;f++) if (step(&e,va,fam,entry,&pos,D,nd,base,basename_(base),f)==1){ bad=1; break; }
+      if (bad) return;
+      memcpy(snap_e[0],e.st,e.sz); for(i=0;i<nd;i++) memcpy(snap_d[0][i],D[i].st,D[i].sz); pos0=pos;
+      for(bi=0;bi<NTR;bi++){ int b=TR[bi], vb[NDIM], e2;
+         if (b==a) continue;
+         vec_default(vb); if (b<NS) vb[SG[b].dim]=SG[b].val;
+         e2 = fam>=SIG_NFAM ? 2 : (entry+1+b)%3;
+         mc_case("encode_or_decode","tri base=%d Fs=%d ch=%d app=%s A=[%s] x3 -> B=[%s] x2 signal=%s entry=%s->%s",base,FS[base/6],1+(base/3)%2,APPN[base%3],vec_str(va),vec_str(vb),famname(fam),ENTN[entry],ENTN[e2]);
+         memcpy(e.st,snap_e[0],e.sz); for(i=0;i<nd;i++) memcpy(D[i].st,snap_d[0][i],D[i].sz); pos=pos0;
+         if (apply_diff(&e,va,vb)){ MC_INC(c_skipcfg); continue; }
+         MC_INC(c_runs);
+         for(f=0;f<2;f++) if (step(&e,vb,fam,e2,&pos,D,nd,base,basename_(base),3+f)==1) break;
+         if (f<2) continue;
+         memcpy(snap_e[1],e.st,e.sz); for(i=0;i<nd;i++) memcpy(snap_d[1][i],D[i].st,D[i].sz); pos1=pos;
+         for(ci=0;ci<NTR;ci++){ int c=TR[ci], vc[NDIM], e3;
+            if (c==b) continue;
+            vec_default(vc); if (c<NS) vc[SG[c].dim]=SG[c].val;
+            e3 = fam>=SIG_NFAM ? 2 : (e2+1+c)%3;
+            mc_case("encode_or_decode","tri base=%d Fs=%d ch=%d app=%s A=[%s] x3 -> B=[%s] x2 -> C=[%s] x3 signal=%s entry=%s->%s->%s",base,FS[base/6],1+(base/3)%2,APPN[base%3],vec_str(va),vec_str(vb),vec_str(vc),famname(fam),ENTN[entry],ENTN[e2],ENTN[e3]);
+            memcpy(e.st,snap_e[1],e.sz); for(i=0;i<nd;i++) memcpy(D[i].st,snap_d[1][i],D[i].sz); pos=pos1;
+            if (apply_diff(&e,vb,vc)){ MC_INC(c_skipcfg); continue; }
+            MC_INC(c_runs);
+            for(f=0;f<3;f++) if (step(&e,vc,fam,e3,&pos,D,nd,base,basename_(base),5+f)==1) break;
+         }
+      }
+   }
+}
+
 /* ------------------------------------------------------------------ multistream / projection */
 typedef struct { const char *name; int kind; /*0 plain,1 surround(family 1),2 projection(family 3)*/ int channels,streams,coupled; unsigned char map[20]; } layout;
 static const layout LAY[]={
@@ -662,6 +727,7 @@ int main(int argc,char **argv){
    mc_info("mode=%s k=%d frames=%d ndec=%d alphabet=%s singles=%d families=%d",mode,g_k,g_frames,g_ndec,full?"full":"reduced",NS,NFAMS);
    if (!strcmp(mode,"grid")){ if (g_k>=3) g_split=1; nitems = !g_split ? 30L*(NS+1) : 30L*(NS+1)*(NS+1); mc_par(nitems,grid_item,NULL); }
    else if (!strcmp(mode,"hist")){ mc_par(30L*(NS+1),hist_item,NULL); }
+   else if (!strcmp(mode,"tri")){ int q,tf=(int)mc_arg("--trifull",MC.tier?1:0); NTR=0; TR[NTR++]=NS; for(q=0;q<NS&&NTR<64;q++) if(tr_member(&SG[q],tf)) TR[NTR++]=q; mc_info("tri: |T|=%d (incl. defaults) -> %ld ordered triples per base",NTR,(long)NTR*(NTR-1)*(NTR-1)); mc_par(30L*NTR,tri_item,NULL); }
    else if (!strcmp(mode,"exc")){ NFRAMES_B=(int)mc_arg("--excb",1); NFRAMES_C=(int)mc_arg("--excc",3); mc_par(30L*(NS+1),hist_item,NULL); }
    else if (!strcmp(mode,"ms")){ mc_par(ms_nitems()+(g_sweep>0?(long)g_nlay*15*NSWEEPCFG:0),ms_item,NULL); }
    else if (!strcmp(mode,"sweep")){ mc_par(30L*36,sweep_item,NULL); }
